@@ -1,0 +1,20 @@
+//go:build verif
+
+package jsonparser
+
+import "github.com/karagenc/socket.io-go/parser"
+
+// VerifParseHeader exposes the header reader.
+func VerifParseHeader(p parser.Parser, data []byte) (header *parser.PacketHeader, eventName string, err error) {
+	header, _, eventName, err = p.(*Parser).parseHeader(data)
+	return
+}
+
+// VerifRemaining is the number of binary frames the parser still expects (0 when idle).
+func VerifRemaining(p parser.Parser) int {
+	pp := p.(*Parser)
+	if pp.r == nil {
+		return 0
+	}
+	return pp.r.remaining
+}
